@@ -13,12 +13,16 @@ Full statement of the property over the model, for reference:
     ∧ every write of (call fn a).writes lies inside designated fn a    (writes_within_designated)
     ∧ the table invariant is preserved                                 (table_inv)
     ∧ (call fn a).alloc ≤ c · m.size + c'                              (table_space_bounded)
-Proved below: no_host_index_oob for poll_oneoff (false on the pinned tree: `poll_overflow_witness`, F15; full for the
-repaired variant; partial for the as-is variant), args_get/environ_get and the loop-free functions;
-footprint_in_bounds for poll_oneoff and the loop-free functions; the shape part of table_inv over all
-histories; table_space_bounded_partial (histories without InsertAt) and the witness that InsertAt is unbounded
-(`renumber_alloc_witness`, F16).  Not proved (monitored by the harness only): writes_within_designated as a
-theorem, footprint_in_bounds of the iovec walks, the bit⇔item part of table_inv.
+Proved below, first the per-function theorems of the first delivery (kept unchanged), then — "all 46 functions" —
+one theorem per statement quantified over the function name in `modelled`, for every argument tuple, memory image,
+descriptor table, host configuration and every alternative the host may select:
+  all_no_host_panic                       (46; repaired poll_oneoff — F15 witness `poll_overflow_witness`)
+  all_writes_in_memory_and_designated     (46; repaired sock_recv PEEK and readv — witnesses `sockRecv_peek_witness` = F61,
+                                           `readv_alias_witness` = F62)
+  all_failed_call_keeps_table             (46)
+  all_alloc_bounded                       (45; fd_renumber is unbounded — `renumber_alloc_witness`, F16)
+plus the shape part of table_inv over all histories and table_space_bounded_partial.  Not proved (checked on the real
+code only): footprint_in_bounds (`acc`) of the iovec walks and of args_get, the bit⇔item part of table_inv.
 -/
 import Wz.Proofs.C15_PollLoop
 import Wz.Proofs.C15_Table
